@@ -30,7 +30,7 @@ CLAIMS.update({
               'stale+must-revalidate, request no-cache, exceeded request max-age are never overridden), C02_no_stale_fallback, '
               'C02_mandatory_validation_outcome (mandatory validation that fails returns the origin\'s answer or error, never the stored response), '
               'C02_validation_request (every origin call carries the client\'s method, URL and header fields plus only If-None-Match / '
-              'If-Modified-Since from the stored validators; request values are immutable in the model), and at history level C02_history_unvalidated (along EVERY sequential history from an empty store a response returned without contacting the origin is the synthesised 504 or the served form of an entry whose fields and instants are those of origin calls of the history (Src) and which does not need validation by the specification at that instant). Monitor mon_C02 (with age_inputs: what a 304 leaves in the store) on the real transport each run; the runner snapshots the caller\'s request around every RoundTrip and reuses it afterwards.'),
+              'If-Modified-Since from the stored validators; request values are immutable in the model), and at history level C02_history_unvalidated (along EVERY sequential history from an empty store a response returned without contacting the origin is the synthesised 504 or the served form of an entry whose fields and instants are those of origin calls of the history (Src) and which does not need validation by the specification at that instant) and C02_history_validated (a response returned marked REVALIDATED carries the status and body of such an entry, and the origin was contacted in that exchange with exactly the client\'s request plus If-None-Match / If-Modified-Since from that entry\'s validators and answered 304: the call is in the log). Monitor mon_C02 (with age_inputs: what a 304 leaves in the store) on the real transport each run; the runner snapshots the caller\'s request around every RoundTrip and reuses it afterwards.'),
         note=COMMON_NOTE + ' That Go\'s cloneRequest copies the header map (client request left unmodified) is observed by the harness, not proved.'),
     'C10': dict(
         text=('Theorems C10_no_panic / C10_no_panic_background (no panic node on any path of the round-trip and background programs, for every '
@@ -44,7 +44,7 @@ CLAIMS.update({
     'C13': dict(
         text=('Theorems C13_only_eligible_failures, C13_shape, C13_within_window (CanStaleOnError over the stored response\'s and the request\'s '
               'stale-if-error implies the specification window  age(now\') < lifetime + N  in saturating arithmetic, for all values), '
-              'C13_not_when_validation_demanded. Monitor mon_C13 (both directions, boundary instants) on the real transport each run.'),
+              'C13_not_when_validation_demanded, and at history level C13_history (along EVERY sequential history a response returned marked STALE by an exchange that contacted the origin is the stale-if-error answer for a stored entry with a known source (Src): the decision at the start of the exchange was to validate without validation being demanded, the conditional request built from its validators was sent in that exchange and failed or was answered 500/502/503/504, and CanStaleOnError held for the stored response\'s or the request\'s stale-if-error). Monitor mon_C13 (both directions, boundary instants; with age_inputs) on the real transport each run.'),
         note=COMMON_NOTE),
 })
 CLAIMS.update({
